@@ -75,7 +75,7 @@ def run(ctx):
                    "re-emplaced by another waiter at once, so the value read (e.g. ->next) is garbage and waiters "
                    "behind it are never resumed" % (v.get("n"), v.get("n")), site="%s@after-release" % inst)
         # R1e a walk over the waiter list must not clear the link it is about to advance through
-        for inc in ig.ev_nodes(lambda n: n.id in live and n.ev["e"] == "asg" and n.ev.get("op") == "=" and n.frame.id == 0):
+        for inc in ig.ev_nodes(lambda n: n.id in live and n.ev["e"] == "asg" and n.ev.get("op") == "=" and n.frame.owner_id == 0):
             lhs = strip_cast(inc.ev["lhs"])
             rhs = strip_cast(inc.ev.get("rhs"))
             if not (isinstance(lhs, dict) and lhs.get("k") == "l" and isinstance(rhs, dict) and rhs.get("k") == "f" and
@@ -85,7 +85,7 @@ def run(ctx):
             v = dict(lhs, fr=0)
             redefs = [n for n, r_, h_ in ig.local_defs(ig.frames[0], lhs["id"]) if n is not inc]
             bad = None
-            for w in ig.ev_nodes(lambda n: n.id in live and n.ev["e"] == "asg" and n.frame.id == 0 and n is not inc):
+            for w in ig.ev_nodes(lambda n: n.id in live and n.ev["e"] == "asg" and n.frame.owner_id == 0 and n is not inc):
                 wl = strip_cast(w.ev["lhs"])
                 if isinstance(wl, dict) and wl.get("k") == "f" and wl.get("n") == "next" and \
                         strip_cast(wl.get("b", {})).get("k") == "l" and strip_cast(wl["b"]).get("id") == lhs["id"]:
